@@ -610,9 +610,15 @@ def check_C07(run: core.Run, replay=None):
 def check_C01(run: core.Run, replay=None):
     core.assert_repo_tree()
     quick = run.tier == "quick"
+    from . import multialg
+
+    if replay and replay["replay"].get("module") == "multialg":
+        multialg.check(run, replay=replay["replay"]["case"])
+        return run.finish()
     if replay:
         cases = _replay_cases(replay)
     else:
+        multialg.check(run)
         design_xfer(run)
         cases = sim_cases("ObjectStore_sim_honest.cfg", 500 if quick else 5000, 20, run.seed + 7)
         gx = tlc_generate("xfer")
